@@ -460,11 +460,13 @@ theorem afterPosted_delta {nt : Nat} (s : St) (t : Tok) (l : Ledger) (src dst : 
           | some l' =>
             exact DInv.fin h hd' l' d1 d2 (hl0.neoOnPayment h.neoC hn) (hs.trans (neoOnPayment_step _ _ _ _ _ _ hl0 hn))
     · rw [if_neg hc]
-      cases recv with
-      | none => exact DInv.fin h hd' l d1 d2 hl0 hs
-      | accept => exact DInv.fin h hd' l d1 d2 hl0 hs
-      | throws => exact hd'.throw
-      | cb => exact ⟨hd'.cur.step hs, hd'.snap⟩
+      split
+      · exact hd'.throw
+      · cases recv with
+        | none => exact DInv.fin h hd' l d1 d2 hl0 hs
+        | accept => exact DInv.fin h hd' l d1 d2 hl0 hs
+        | throws => exact hd'.throw
+        | cb => exact ⟨hd'.cur.step hs, hd'.snap⟩
 
 theorem Delta.start (l : Ledger) (he : l.events = []) : Delta l l := by
   intro t a; rw [he]; simp [evNet]
@@ -707,7 +709,7 @@ theorem exec_delta {nt : Nat} (s : St) (op : Op) (h : MInv nt s) (hd : DInv s) :
             cases hm : mintGasCb s.env l acc g with
             | none => exact hd.throw
             | some l' => exact hd.done l' .t (st.trans (mintGasCb_step s.env l l' acc g hv' hm))
-  | register pub =>
+  | register pub caller =>
     simp only [exec]
     split
     · exact hd
@@ -805,7 +807,9 @@ theorem step_delta {nt : Nat} (s : St) (op : Op) (h : MInv nt s) (hd : DInv s) :
     · exact ⟨hd.cur, hd.snap⟩
     · exact ⟨hd.cur, hd.snap⟩
     · exact hd
-  · exact exec_delta s op h hd
+  · split
+    · exact hd.throw
+    · exact exec_delta s op h hd
 
 theorem run_delta {nt : Nat} (s : St) (ops : List Op) (h : MInv nt s) (hd : DInv s) : DInv (run s ops) := by
   induction ops generalizing s with
